@@ -123,6 +123,10 @@ class ConcFamily(Family):
             # a torn iteration would see a = ok (early) and b = ok (late)
             [["add:" + a, "ready:" + a, "add:" + b, "add:" + a, "ready:" + b], ["get"]],
             [["add:" + a, "ready:" + a, "add:" + b, "add:" + a, "ready:" + b], ["isready"]],
+            # the asking thread registers a component itself that nobody ever marks ready: whatever the
+            # others do (two workers marking a shared component), it must not be told "ready"
+            [["add:" + a, "ready:" + a], ["ready:" + a], ["add:" + b, "isready", "get"]],
+            [["add:" + a, "ready:" + a, "ready:" + a], ["add:" + a, "ready:" + a], ["add:" + b, "isready"]],
         ]
         for th in base:
             cs.append({"threads": th, "max": 3000 if tier == "quick" else 30000})
